@@ -52,6 +52,8 @@ def gen(seed, tier):
         'sched': mvcc.sched_config(r),
         'tick': r.choice((0.37, 0.37, 1e-7, 45.0)), 'tier': tier,
     }
+    if r.random() < 0.15:
+        case['pokers'] = mvcc.gen_pokers(r, ncell)
     if r.random() < 0.12:
         # line-level pre-emption concentrated on the code that hands out
         # snapshots and invalidations (the MVCC adapter), or on the pool of
@@ -73,6 +75,7 @@ def run(case):
     try:
         log = w.final_log()
         mvcc.check_snapshots(w, log)
+        mvcc.check_pokers(w, log, w.poker_results)
         if not s.deadlock and not s.capped:
             mvcc.check_final_state(w, log)
     except Exception as e:      # noqa: B902
